@@ -23,7 +23,13 @@ fn main() {
         let mut kept = 0usize;
         while kept < want && k < 20 * want as u64 {
             let mut rng = Rng::for_run(seed, "random-def", k);
-            let d = random_def(&mut rng, &format!("Rnd{}", k), false, k % 4 == 0);
+            let mut d = random_def(&mut rng, &format!("Rnd{}", k), false, k % 4 == 0);
+            if k % 3 == 1 {
+                // every third random definition is made stateful (no further draws: the definitions stay the same otherwise)
+                for p in d.pats.iter_mut() {
+                    p.cb = match p.cb { Cb::Skip | Cb::SkipClosure => Cb::CountSkip, Cb::Len => Cb::Seq, Cb::Unit if p.attr == "token" => Cb::Line, other => other };
+                }
+            }
             k += 1;
             let ts: proc_macro2::TokenStream = enum_source(&d).parse().expect("random definition is not Rust");
             let ok = std::panic::catch_unwind(|| logos_codegen::generate(ts).to_string()).map(|g| !g.contains("compile_error")).unwrap_or(false);
@@ -47,10 +53,10 @@ fn main() {
         let srcty = if d.utf8 { "str" } else { "[u8]" };
         let _ = writeln!(
             out,
-            "fn run_{n}(src: &{srcty}, partial: bool, with_extras: bool, start_at: usize, max_items: usize) -> LexOut {{ run_generic::<{ty}>(src, partial, with_extras, start_at, max_items) }}\n",
+            "fn run_{n}(src: &{srcty}, partial: bool, with_extras: bool, start_at: usize, max_items: usize, extras_in: u64) -> LexOut {{ run_generic::<{ty}>(src, partial, with_extras, start_at, max_items, extras_in) }}\n",
             n = d.name
         );
-        let _ = writeln!(infos, "    DefInfo {{ name: {:?}, utf8: {}, source: {:?}, run: Run::{}(run_{}), pats: &[", d.name, d.utf8, src, if d.utf8 { "Str" } else { "Bytes" }, d.name);
+        let _ = writeln!(infos, "    DefInfo {{ name: {:?}, utf8: {}, stateful: {}, source: {:?}, run: Run::{}(run_{}), pats: &[", d.name, d.utf8, is_stateful(d), src, if d.utf8 { "Str" } else { "Bytes" }, d.name);
         for (lit, prio, extra) in &d.skips {
             let unicode = !lit.starts_with('b');
             let lit_bytes = if unicode { format!("{}.as_bytes()", lit) } else { lit.to_string() };
